@@ -351,6 +351,18 @@ class FileStore(RuleBasedStateMachine):
                 self._fetch_chunk(acc, key, cc, who)
         self.ops.add("cross_read")
 
+    @rule(reopen=st.booleans())
+    @logged
+    def wipe_and_start_over(self, reopen):
+        """The dataset directory is deleted (a failed run is thrown away) and
+        the same path is written again in the same process."""
+        shutil.rmtree(self.base, ignore_errors=True)
+        self.files.clear()
+        self.chunks.clear()
+        if reopen:
+            self.acc = self.make_writer("direct")
+        self.ops.add("wiped")
+
     @rule(form=st.sampled_from(["plain", "file", "file_escaped",
                                 "precomputed_file_escaped", "slash"]),
           content=content_st)
